@@ -271,8 +271,8 @@ admitted entry, expiry of key 1, `invalidate_all`; snapshots with pending operat
 quiescent snapshots right after `sync` (with 2, 2, 1, 2, 2 and 1 entries; six in all). -/
 def c10History : List Op :=
   [.ins 1 1, .ins 2 2, .snap, .sync, .snap, .ins 1 3, .snap, .sync, .snap, .get 1, .ins 3 4,
-   .inv 2, .snap, .sync, .snap, .get 4, .get 4, .get 4, .adv 600000000, .ins 4 2, .ins 4 7,
-   .ins 5 9, .snap, .sync, .snap, .adv 1500000000, .ins 6 1, .sync, .snap, .invAll, .sync, .snap]
+   .inv 2, .snap, .sync, .snap, .get 4, .get 4, .get 4, .adv Gen.PAST_SYNC_INTERVAL_NS, .ins 4 2, .ins 4 7,
+   .ins 5 9, .snap, .sync, .snap, .adv (2000000000 - Gen.PAST_SYNC_INTERVAL_NS), .ins 6 1, .sync, .snap, .invAll, .sync, .snap]
 
 example : Spec.oracleC10 .sync c10Params.weigh (Sync.trace c10Params c10History) = true := by
   decide +kernel
@@ -380,7 +380,7 @@ switch on, a node of a replaced generation of key 3 survives its entry; the coun
 live-object counts are wrong at the quiescent snapshots (and the run ends in a
 use-after-free). -/
 def d7History' : List Op :=
-  [.ins 1 1, .ins 2 1, .sync, .ins 3 1, .ins 3 1, .adv 600000000, .get 3, .sync, .snap, .ins 3 1,
+  [.ins 1 1, .ins 2 1, .sync, .ins 3 1, .ins 3 1, .adv Gen.PAST_SYNC_INTERVAL_NS, .get 3, .sync, .snap, .ins 3 1,
    .sync, .snap, .get 4, .get 4, .get 4, .ins 4 2, .sync, .snap]
 
 def d7Params' (q : Quirks) : Params := { cap := some 2, hasWeigher := true, w := fun _ v => v, q := q }
